@@ -12,6 +12,8 @@ import traceback
 import warnings
 from pathlib import Path
 
+from fractions import Fraction
+
 import numpy as np
 
 import common
@@ -102,14 +104,15 @@ def patch_meta_text(text, ns, nc, fs):
 NP1_GAINS = [50, 125, 250, 500, 1000, 1500, 2000, 3000]
 
 
-def synth_meta(rng, kind, nch, nsync=1, sites=None, gains=None):
+def synth_meta(rng, kind, nch, nsync=1, sites=None, gains=None, layout=None):
     """Small synthetic SpikeGLX meta text: permuted site map, non-uniform IMRO gains.
     kind in 3A, 3B2, 3B2geom, NP2.1, NP2.4, NPultra, lf, nidq.  Returns (text, fs, nc)."""
     L = []
     if kind == "nidq":
-        mn, ma, xa, dw = rng.choice([(0, 0, 1, 1), (2, 1, 1, 1), (0, 3, 2, 1), (4, 0, 0, 1), (1, 2, 3, 1)])
+        mn, ma, xa, dw = layout or rng.choice([(0, 0, 1, 1), (2, 1, 1, 1), (0, 3, 2, 1), (4, 0, 0, 1), (1, 2, 3, 1),
+                                               (0, 0, 8, 0), (3, 3, 0, 0), (2, 0, 1, 2)])
         fs = 30003.0003
-        rmax, mag, mng = rng.choice(["5", "2.5", "10"]), rng.choice([1, 2, 10]), rng.choice([200, 100, 50])
+        rmax, mag, mng = rng.choice(["5", "2.5", "10"]), rng.choice([2, 4, 10]), rng.choice([200, 100, 50])
         i2v = float(rmax) / 32768
         exp = [i2v / mng] * mn + [i2v / mag] * ma + [i2v] * xa + [1.0] * dw
         L += ["acqMnMaXaDw=%d,%d,%d,%d" % (mn, ma, xa, dw), "nSavedChans=%d" % (mn + ma + xa + dw),
@@ -282,6 +285,26 @@ def gen_slice(rng, n, maxlen=None):
 
 
 def gen_list(rng, n, maxlen=8):
+    if n >= 3 and rng.random() < 0.2:
+        # runs and near-runs: endpoints of a consecutive run with a disturbed / permuted / repeated
+        # interior, descending and wrapped (negative) runs — lists that "look like" a slice
+        k = rng.randrange(3, min(n, max(3, maxlen)) + 1)
+        a = rng.randrange(0, n - k + 1)
+        l = list(range(a, a + k))
+        mode = rng.choice(["run", "disturb", "swap", "repeat", "desc", "neg", "negdisturb"])
+        if mode == "disturb":
+            l[rng.randrange(1, k - 1)] = rng.randrange(-n, n)
+        elif mode == "swap" and k >= 4:
+            l[1], l[2] = l[2], l[1]
+        elif mode == "repeat":
+            l[rng.randrange(1, k - 1)] = l[0]
+        elif mode == "desc":
+            l = l[::-1]
+        elif mode == "neg":
+            l = [v - n for v in l]
+        elif mode == "negdisturb":
+            l[rng.randrange(1, k - 1)] = rng.randrange(-n, 0)
+        return ("list", l, rng.choice(["list", "array", "array32", "strided"]))
     k = rng.choice([0, 1, 1, 2, 2, 3, rng.randrange(0, maxlen + 1)])
     bad = rng.random() < 0.08
     l = [rng.randrange(-n, n) if n > 0 else 0 for _ in range(k)]
@@ -715,6 +738,21 @@ def build_recordings(ctx, tdir):
         for cbin in (False, True):
             recs.append(dict(name="l_%d_%d" % (ns, cbin), text=text, fs=fs, ns=ns, nc=nc, cbin=cbin, chunk=chunk,
                              label="long:%s:%d" % (kind, ns), big=False, exp_s2v=exp))
+    # nidq layouts over the whole grid MN x MA x XA x DW (zero counts included: no digital word,
+    # analog only, digital only), gains != 1; tiny recordings, a few calls each
+    grid = [(mn, ma, xa, dw) for mn in (0, 2, 3) for ma in (0, 2, 3) for xa in (0, 1, 2, 8) for dw in (0, 1, 2)
+            if mn + ma + xa + dw > 0]
+    for k, lay in enumerate(grid):
+        text, fs, nc, exp = synth_meta(rng, "nidq", 0, layout=lay)
+        cb = (k % 3 == 0)
+        recs.append(dict(name="g_%d" % k, text=text, fs=fs, ns=rng.choice([2, 3, 5]), nc=nc, cbin=cb, chunk=2,
+                         label="nidqgrid:%d,%d,%d,%d" % lay, big=False, exp_s2v=exp, ncases=3))
+    # imec streams saved WITHOUT the sync channel (snsApLfSy = N,0,0 / 0,N,0)
+    for kind in ("3B2", "lf", "NP2.4", "NPultra", "3A", "NP2.1"):
+        text, fs, nc, exp = synth_meta(rng, kind, rng.choice([4, 6, 9]), nsync=0)
+        recs.append(dict(name="ns_%s" % kind, text=text, fs=fs, ns=rng.choice([3, 8, 13]), nc=nc,
+                         cbin=(kind in ("lf", "NP2.4")), chunk=3, label="nosync:%s" % kind, big=False,
+                         exp_s2v=exp, ncases=12))
     # flat binaries without a .meta file: Reader(file, nc=, ns=, fs=) — no geometry, no permutation
     S2V_AP = 2.34375e-06
     for k, (dtype, nsync, nc) in enumerate([("int16", 1, 7), ("int16", 0, 5), ("float32", 0, 4), ("int16", 2, 9)]):
@@ -741,6 +779,7 @@ def build_recordings(ctx, tdir):
         rec.sweep = r.get("sweep", False)
         rec.exp_s2v = r.get("exp_s2v")
         rec.structured = r.get("structured", False)
+        rec.ncases = r.get("ncases")
         rec.text = r["text"]
         rec.fs = r["fs"]
         rec.chunk = r["chunk"]
@@ -781,6 +820,48 @@ def model_orders(ctx, recs, stats):
             rec.model_order[sort] = (list(k), o[1:] if o and o[0] == 1 else None)
     stats["order_queries"] = len(queries)
     return queries, outs
+
+
+def model_gains(ctx, recs, stats):
+    """volts-per-bit vector predicted by the Coq model (C09's meta-file model) for every recording
+    with a meta file: list of (tag, m, s) per on-disk channel + range + maxint, or None."""
+    queries, owners = [], []
+    for rec in recs:
+        rec.model_gain = None
+        if rec.flat is None:
+            queries.append([4] + [ord(ch) for ch in rec.meta_file.read_text()])
+            owners.append(rec)
+    outs = run_model(ctx, queries)
+    for rec, o in zip(owners, outs):
+        if o and o[0] == 1 and len(o) >= 5 and len(o) == 5 + 3 * o[4]:
+            rec.model_gain = {"range": Fraction(o[1], 10 ** o[2]), "maxint": o[3],
+                              "conv": [tuple(o[5 + 3 * i: 8 + 3 * i]) for i in range(o[4])]}
+    stats["gain_queries"] = len(queries)
+    return queries, outs
+
+
+def gain_model_mismatch(rec, s2v):
+    """None if the implementation's volts-per-bit vector is the model's (range/maxint/gain to a
+    relative 1e-6; exactly 1.0 where the model says 1)."""
+    m = rec.model_gain
+    if m is None:
+        return "the meta-file model returns no volts-per-bit vector"
+    if len(m["conv"]) != len(s2v):
+        return "model has %d entries, implementation %d" % (len(m["conv"]), len(s2v))
+    for c, (x, (tag, gm, gs)) in enumerate(zip(s2v, m["conv"])):
+        x = float(x)
+        if tag == 1:
+            ok = x == 1.0
+            e = 1.0
+        elif gm == 0:
+            ok, e = not np.isfinite(x), float("inf")
+        else:
+            e = float(m["range"] / m["maxint"] / Fraction(gm, 10 ** gs))
+            ok = np.isfinite(x) and abs(x - e) <= 1e-6 * abs(e)
+        if not ok:
+            return "on-disk channel %d: implementation %r, model %s (range %s / maxint %s%s)" % (
+                c, x, e, m["range"], m["maxint"], "" if tag == 1 else " / gain %s" % Fraction(gm, 10 ** gs))
+    return None
 
 
 def s2v_clauses(rec, snap, maxint):
@@ -992,6 +1073,12 @@ def check_recording(ctx, rec, stats, work):
                                  "reader_order) differ at column %d (model %s, implementation %s)" % (
                                      k, order[k:k + 4], impl_order[k:k + 4]), desc0, {"kind": "order"})
                 stats["order_compared"] += 1
+                if sort:
+                    why = gain_model_mismatch(rec, s2v)
+                    stats["gain_compared"] += 1
+                    if why:
+                        ctx.disagree("volts-per-bit vector: implementation and Coq model (C09 meta-file model) "
+                                     "differ: " + why, desc0, {"kind": "gain"})
             noninv = any(order[order[j]] != j for j in range(rec.nc))
             nonuni = len(set(float(x) for x in s2v[:rec.nc - snap["nsync"]])) > 1
             stats["readers_noninvolutive_order"] += noninv
@@ -1009,6 +1096,8 @@ def check_recording(ctx, rec, stats, work):
                 cases = sweep_cases(rec.ns, rec.nc, vals) if sort else []
             else:
                 n = (60 if ctx.thorough() else 14) if rec.big else (150 if ctx.thorough() else 34)
+                if rec.ncases:
+                    n = rec.ncases * (3 if ctx.thorough() else 1)
                 cases = gen_cases(rng, rec.ns, rec.nc, rec.cbin, n, rec.big)
                 if rec.flat is not None:
                     # read_samples / read(sync=True) need the meta (read_sync; see notes F-C01-e): not used here
@@ -1025,8 +1114,28 @@ def check_recording(ctx, rec, stats, work):
                 pass
 
 
+def read_sync_raises(sr, nsel):
+    try:
+        with warnings.catch_warnings():
+            warnings.simplefilter("ignore")
+            sr.read_sync(nsel)
+        return None
+    except Exception as e:      # noqa
+        return type(e).__name__
+
+
 def one_case(ctx, rec, sr, sort, case, CS, s2v, order, do_sync, stats, work):
     obs = run_impl(sr, case)
+    if case["api"] == "read_samples" and obs[0] == "err":
+        # read_samples = read(slice, channels, sync=True): when read_sync itself (C10's, e.g. nidq with 0 or
+        # >= 2 digital words) raises that exception, the data part is examined through sync=False
+        sels = case["sels"]
+        if read_sync_raises(sr, slice(sels[0][1], sels[0][2])) == obs[1]:
+            alt = {"api": "read", "sels": [sels[0], sels[1] if len(sels) > 1 else ("slice", None, None, None)]}
+            obs2 = run_impl(sr, alt)
+            if obs2[0] != "err":
+                obs = obs2
+                stats["read_samples_blocked_by_read_sync"] = stats.get("read_samples_blocked_by_read_sync", 0) + 1
     ftag = {"file": "cbin" if rec.cbin else "bin"}
     stats["api"][case["api"]] = stats["api"].get(case["api"], 0) + 1
     out = obs[0] if obs[0] != "err" else obs[1]
@@ -1071,7 +1180,7 @@ def run(ctx):
     os.environ["TQDM_DISABLE"] = "1"
     logging.disable(logging.CRITICAL)
     common.proof_obligations(ctx, whitelist=sorted(common.STDLIB_AXIOMS), coqchk_admit=["IBL.C01.SyncSweep"])
-    stats = {"order_compared": 0, "sync_pair_checks": 0, "api": {}, "outcome": {}, "selector": {}, "file": {"bin": 0, "cbin": 0}, "sorted": 0, "unsorted": 0,
+    stats = {"gain_compared": 0, "order_compared": 0, "sync_pair_checks": 0, "api": {}, "outcome": {}, "selector": {}, "file": {"bin": 0, "cbin": 0}, "sorted": 0, "unsorted": 0,
              "oracle_evaluations": 0, "nontrivial": set(), "recordings": 0, "kinds": {},
              "readers_noninvolutive_order": 0, "readers_noninvolutive_order_and_nonuniform_gains": 0,
              "max_ns": 0, "max_chunks": 0}
@@ -1080,6 +1189,8 @@ def run(ctx):
     try:
         recs = build_recordings(ctx, tdir)
         oq, oo = model_orders(ctx, recs, stats)
+        gq, go = model_gains(ctx, recs, stats)
+        oq, oo = oq + gq, oo + go
         for rec in recs:
             check_recording(ctx, rec, stats, work)
             stats["recordings"] += 1
